@@ -448,7 +448,6 @@ func checkC16(res *Result) {
 	res.Trusted = []string{"go/types, go/ssa, go/ast (x/tools v0.29.0)", "e1_effects.go, e2_facts.go, e4_flow.go, e9_errflow.go"}
 }
 
-
 // isURLParam: v is a parameter of type *url.URL of its function (the per-object id handed to
 // the per-object body, whatever it is called).
 func isURLParam(v ssa.Value) bool {
